@@ -68,6 +68,10 @@ KANI_GROUPS = {
             dict(name="vk_lowest_index_l3", kind="bounded(L=3, 5 steps)", timeout=600, props=["C04"], witness_units=["highest_lowest_index"]),
             dict(name="vk_smm_l3", kind="bounded(L=3, 5 steps over a 5-letter alphabet incl. both zeros)", timeout=1800, tier="thorough", props=["C04"]),
             dict(name="vk_smm_l3_guarded", kind="bounded(L=3, 5 steps over a 5-letter alphabet, no negative zero)", timeout=1800, tier="thorough", props=["C04"]),
+            dict(name="vk_reversal_upper_l3", kind="bounded((1,1), 6 steps over a 5-letter alphabet)", timeout=600, props=["C14"], witness_units=["reversal"]),
+            dict(name="vk_reversal_lower_l3", kind="bounded((1,1), 6 steps over a 5-letter alphabet)", timeout=600, props=["C14"], witness_units=["reversal"]),
+            dict(name="vk_reversal_long_stream", kind="bounded(concrete zigzag, 300 steps)", timeout=600, props=["C14", "C07"]),
+            dict(name="vk_reversal_long_stream_guarded", kind="bounded(concrete zigzag, 255 steps)", timeout=600, props=["C14", "C07"]),
             dict(name="vk_cross_above_under", kind="complete", timeout=600, props=["C14"]),
             dict(name="vk_cross_swap_negates", kind="complete", timeout=600, props=["C14"]),
             dict(name="vk_cross_two_steps", kind="complete", timeout=600, props=["C14"]),
@@ -183,13 +187,13 @@ PROPS["C20"] = dict(
                  "WMA/HMA: lengths >= 2^32 (period_type_u64 only) are excluded by the constructor precondition (usize product overflow)"],
 )
 PROPS["C07"] = dict(
-    verus=ALL_VERUS,
+    verus=ALL_VERUS + ["reversal"], kani=["methods"],
     claim=("Every contract is an inductive invariant: next's postcondition is proved from ANY state satisfying inv, so it holds after arbitrarily "
            "many steps; for finite-window methods step depends only on the abstract window view, so an instance with a long past behaves like a "
            "fresh one primed with the last window. Internal counters: HighestIndex/LowestIndex `index += 1` is proved overflow-free from index < length. "
-           "The reversal detectors' absolute PeriodType positions are not under contract yet."),
+           "The reversal detectors' absolute PeriodType positions saturate: verified definitional up to that point, known finding beyond it."),
     assumptions=[REALS + "; in particular the growth of rounding error in running sums over 10^7 steps is NOT decided",
-                 "reversal detectors (saturating position counter) not covered yet"],
+                 "reversal detectors: covered up to the saturation of the position counter (known finding beyond)"],
 )
 
 PROPS["C09"] = dict(
@@ -216,11 +220,16 @@ PROPS["C11"] = dict(
 )
 
 PROPS["C14"] = dict(
-    verus=["indicator_base"], kani=["methods"],
+    verus=["indicator_base", "reversal"], kani=["methods"],
     claim=("CrossAbove/CrossUnder/Cross are verified twice: in Verus over exact reals against 'fires exactly when the previous difference was negative "
            "and the current one is non-negative' (mirrored; Cross is the signed combination; swapping the series negates: lemma cross_swap_negates), and "
-           "bit-precisely by loop-free Kani harnesses over all finite f64 inputs (complete). The reversal detectors are NOT under contract yet."),
-    assumptions=[REALS + " (Verus part); the Kani part is bit-precise over finite inputs", "Upper/Lower/ReversalSignal are not covered by this check yet"],
+           "bit-precisely by loop-free Kani harnesses over all finite f64 inputs (complete). Upper/LowerReversalSignal::next are verified (Verus, every (left,right), "
+           "rescan loop desugared from the real zip/skip/for_each chain) to keep their max/min bookkeeping valid and, once the window holds real inputs only, to fire "
+           "exactly `right` steps after an element that is >= every older and > every newer element of its left+right+1 neighbourhood; ReversalSignal is lower minus upper. "
+           "This holds for the calls before the PeriodType position counter saturates (contract guard index < PeriodType::MAX); beyond it the detectors stop firing, which is "
+           "the recorded known finding (concrete 300-step harness)."),
+    assumptions=[REALS + " (Verus part); the Kani part is bit-precise over finite inputs",
+                 "warm-up steps (fewer than left+right+1 inputs) are exempt: the detector conflates the construction value with position 0"],
 )
 
 INDICATOR_UNITS = ["ind_macd", "ind_channels", "ind_rsi"]
